@@ -1,11 +1,11 @@
-"""C06 -- signature changes keep calls bound to the same values (R06.1-R06.5)."""
+"""C06 -- signature changes keep calls bound to the same values (R06.1-R06.6)."""
 from __future__ import annotations
 
 import ast
-from typing import List, Set
+from typing import List, Optional, Set
 
 from .. import argalign
-from ..core import AnalysisError, call_name, calls_in, is_self_attr, walk_local
+from ..core import AnalysisError, call_name, calls_in, is_self_attr, param_names, walk_local
 from ..grammar import G, PARAM_SLOTS
 
 EXPLANATION = (
@@ -17,7 +17,7 @@ EXPLANATION = (
     "but valid call into an internal AssertionError).  R06.3: inside a changer, the call-side mapping drops a component "
     "only under the same `self.index` selection under which the definition side drops the corresponding component "
     "(sibling agreement).  R06.4: the call-site loop analyses every resource, or skips one only on a test of every "
-    "finder name.  R06.5: introduce-parameter (which rewrites no call site) only appends to the parameter list.  The positional/keyword mapping arithmetic and the changer "
+    "finder name.  R06.5: introduce-parameter (which rewrites no call site) only appends to the parameter list.  R06.6: the reorderer's new parameter list takes its length from the old list (a permutation), not from new_order.  The positional/keyword mapping arithmetic and the changer "
     "pipeline are not decided."
 )
 ASSUMPTIONS = ["alignment rule of the language reference as recorded in sa/grammar.py DEFAULT_ALIGNMENT",
@@ -176,6 +176,67 @@ def check(ctx, res) -> None:
                             "rewrites call sites: a call that passes a later parameter positionally now binds that value to the new parameter",
                             function=m.qualname)
     res.floor("R06.5", "parameter-list mutations in IntroduceParameter", n5, 1)
+
+    # ---- R06.6 a reorder is a permutation of ALL parameters: the list written back to the definition takes its length
+    # from the old parameter list (a copy that is then overwritten by index), never from the caller's `new_order`
+    ro = idx.need_func("rope.refactor.change_signature.ArgumentReorderer.change_definition_info")
+    dparam = param_names(ro.node)[1] if len(param_names(ro.node)) > 1 else None
+    old_alias = set()
+    for x in walk_local(ro.node):
+        if isinstance(x, ast.Assign) and isinstance(x.targets[0], ast.Name) and isinstance(x.value, ast.Attribute) \
+                and x.value.attr == "args_with_defaults" and isinstance(x.value.value, ast.Name) and x.value.value.id == dparam:
+            old_alias.add(x.targets[0].id)
+
+    def is_old(e: ast.AST) -> bool:
+        return (isinstance(e, ast.Attribute) and e.attr == "args_with_defaults" and isinstance(e.value, ast.Name) and e.value.id == dparam) or \
+            (isinstance(e, ast.Name) and e.id in old_alias)
+
+    def length_source(e: ast.AST) -> Optional[str]:
+        """'old' if the list has the old list's length, 'order' if it has new_order's length, None if unknown"""
+        if isinstance(e, ast.Call) and call_name(e) in ("list", "copy", "deepcopy") and e.args and is_old(e.args[0]):
+            return "old"
+        if isinstance(e, ast.Call) and isinstance(e.func, ast.Attribute) and e.func.attr == "copy" and is_old(e.func.value):
+            return "old"
+        if isinstance(e, ast.Subscript) and isinstance(e.slice, ast.Slice) and e.slice.lower is None and e.slice.upper is None and is_old(e.value):
+            return "old"
+        if isinstance(e, (ast.ListComp, ast.GeneratorExp)) and len(e.generators) == 1 and not e.generators[0].ifs:
+            it = e.generators[0].iter
+            inner = it.args[0] if isinstance(it, ast.Call) and call_name(it) in ("enumerate", "range", "len") and it.args else it
+            if isinstance(inner, ast.Call) and call_name(inner) == "len" and inner.args:
+                inner = inner.args[0]
+            if is_old(inner):
+                return "old"
+            if is_self_attr(inner, "new_order"):
+                return "order"
+        if isinstance(e, ast.Call) and call_name(e) == "list" and e.args:
+            return length_source(e.args[0])
+        return None
+
+    written = [x for x in walk_local(ro.node) if isinstance(x, ast.Assign) and any(
+        isinstance(t, ast.Attribute) and t.attr == "args_with_defaults" and isinstance(t.value, ast.Name) and t.value.id == dparam for t in x.targets)]
+    if not written:
+        raise AnalysisError("anchor=ArgumentReorderer.change_definition_info: write-back of args_with_defaults not found")
+    for w_ in written:
+        v = w_.value
+        src = length_source(v)
+        if src is None and isinstance(v, ast.Name):
+            defs = [x.value for x in walk_local(ro.node) if isinstance(x, ast.Assign) and isinstance(x.targets[0], ast.Name) and x.targets[0].id == v.id]
+            srcs = {length_source(d) for d in defs}
+            src = "order" if "order" in srcs else ("old" if srcs == {"old"} else None)
+            # appends/deletes on the list change its length too
+            if src == "old" and any(isinstance(c.func, ast.Attribute) and isinstance(c.func.value, ast.Name) and c.func.value.id == v.id
+                                    and c.func.attr in ("append", "pop", "remove", "insert", "extend", "clear") for c in calls_in(ro.node)):
+                src = None
+        guarded = any(isinstance(x, (ast.Assert, ast.If)) and "len(" in ast.unparse(x.test) and "new_order" in ast.unparse(x.test) for x in walk_local(ro.node))
+        if src is None:
+            res.undecided("R06.6", "ArgumentReorderer|length", f"{ro.unit.rel}:{w_.lineno}", "how the reordered list gets its length was not recognised")
+        else:
+            ok = src == "old" or guarded
+            res.add("R06.6", "ArgumentReorderer|length", ok, f"{ro.unit.rel}:{w_.lineno}",
+                    "the reordered parameter list is a copy of the old list overwritten by index (same length)" if ok else
+                    "ArgumentReorderer builds the new parameter list by iterating over `new_order`, so it has as many entries as the caller listed: "
+                    "with a shorter order (`[1, 0]` on `f(a, b, c)`) the remaining parameters are dropped from the definition and their values from every call",
+                    function=ro.qualname)
 
     # ---- R06.4 call-site discovery looks at every resource: a path through the resources loop that skips the
     # occurrence analysis is only sound if its condition rules out every name the finders search for
